@@ -435,6 +435,12 @@ func runL5Conc(r *rng.R, threads, perThread int) (obs *l5ConcObs) {
 		// a driver statement and executing it is hit many times
 		nS, nD, threads, perThread = 1, 1, 4, 1500
 	}
+	// transaction-heavy runs: one Statement, one DB, two shapes, half of the operations inside
+	// transactions, so that several transactions overlap on the same cached statement
+	txHeavy := !stress && r.Chance(1, 2)
+	if txHeavy {
+		nS, nD = 1, 1
+	}
 	stmts := make([]*sqlair.Statement, nS)
 	for i := range stmts {
 		stmts[i], _ = sqlair.Prepare(l5SQL, Row{}, zoo.Ints{}, zoo.Strs{})
@@ -467,10 +473,10 @@ func runL5Conc(r *rng.R, threads, perThread int) (obs *l5ConcObs) {
 				s := stmts[tr.Intn(nS)]
 				di := tr.Intn(nD)
 				shape := tr.Pick9()
-				if !stress && tr.Chance(1, 2) {
+				if !stress && (txHeavy || tr.Chance(1, 2)) {
 					shape = 1 + tr.Intn(2) // two frequent shapes: cache hits, also inside transactions
 				}
-				if !stress && open == nil && tr.Chance(1, 5) {
+				if !stress && open == nil && (tr.Chance(1, 5) || (txHeavy && tr.Chance(1, 2))) {
 					// a transaction running one to four statements (several shapes of the same
 					// Statements the other goroutines run on the DB), then Commit or Rollback
 					txid := t*10000 + i
@@ -487,6 +493,9 @@ func runL5Conc(r *rng.R, threads, perThread int) (obs *l5ConcObs) {
 						s := stmts[tr.Intn(nS)]
 						if k > 0 && tr.Chance(1, 3) {
 							shape = 1 + tr.Intn(3)
+							if txHeavy {
+								shape = 1 + tr.Intn(2)
+							}
 						}
 						ctx := context.WithValue(context.Background(), fakedrv.CtxKey{}, fmt.Sprintf("d%d-k%d-x%d", di+1, shape, txid))
 						ints, strs := l5Args(shape)
@@ -496,10 +505,13 @@ func runL5Conc(r *rng.R, threads, perThread int) (obs *l5ConcObs) {
 							// the same shape on the DB in between: the pair's cache entry changes
 							// while the transaction is open
 							shape2 := tr.Pick9()
-							c2 := context.WithValue(context.Background(), fakedrv.CtxKey{}, fmt.Sprintf("d%d-k%d", di+1, shape2))
+							// (this needs a second connection while the transaction holds one: bounded
+							// by a deadline so that goroutines cannot wait for each other for ever)
+							c2, cancel2 := context.WithTimeout(context.WithValue(context.Background(), fakedrv.CtxKey{}, fmt.Sprintf("d%d-k%d", di+1, shape2)), 20*time.Millisecond)
 							i2, s2 := l5Args(shape2)
 							var r2 []Row
 							dbs[di].db.Query(c2, s, i2, s2).GetAll(&r2)
+							cancel2()
 						}
 						mu.Lock()
 						obs.Calls++
